@@ -81,7 +81,13 @@ reg('C13', 'propchecks.relprops', 'proof', T_C13 + [('Bashlex.C14.C13_partial_bl
 C14M = 'Bashlex.Props.C14'
 T_C14 = [('Bashlex.C14.' + t, C14M) for t in ['runParser_shift', 'runParser_shift_ok', 'blankSkip_run', 'BlankSkip_conditional', 'C13_partial_blank', 'sim_nextToken', 'sim_parserRun', 'actionsHyp', 'expRel_of_npRel',
          'shiftSafe_ok', 'consume', 'D19_witness', 'example_shift']]
+T_C14 += [('Bashlex.C14.' + t, 'Bashlex.Props.C14More') for t in ['runParser_layout_all', 'parse_layout_prefix', 'parse_layout_prefix_parts', 'parse_layout_prefix_exn', 'parsesingle_layout_prefix',
+          'runParser_layout_only', 'parse_layout_only', 'parse_layout_suffix', 'C13_partial_layout', 'C14_insert_between', 'consumeX', 'D19_comment_witness', 'D19_comment_parsed', 'joinable_witness', 'local_witness']]
 reg('C14', 'propchecks.relprops', 'proof', T_C14 + (T1[:1] + TLEX), [ASCII, DEPTH, CORR,
+    'Props/C14More.lean: the prefix may be any LAYOUT = ([ \\t\\n] | #...newline | backslash-newline)* (comment lines and continuations included; a backslash at the end of a comment continues nothing): runParser_layout_all (one run, all B), '
+    'parse_layout_prefix / parsesingle_layout_prefix (the whole parse: every part shifted, a ParsingError of the first run moved, later errors unchanged); parse_layout_suffix (layout appended after a local, joinable input changes nothing), parse_layout_only; '
+    'C13_partial_layout and C14_insert_between (layout inserted at a boundary between top-level commands leaves earlier parts unchanged and moves later parts by its length). Hypotheses left, all decidable per input: proceed = false (D19, witnesses), '
+    'Joinable / parseLocal (witnesses), and three span facts (the first part does not end at index 0; parts end inside the input; a run that returns no node ran on layout). Layout edits INSIDE a command are not proved (the engine stack would mix moved and unmoved values: all action lemmas would need a piecewise shift)',
     'runParser_shift (unconditional relational walk of the whole tokenizer, word expansion, all 39 actions, the LR engine and nested parsers): one parser run on pre ++ B, pre made of blanks, tabs and newlines, is the run on B with every '
     'span moved by |pre| (a top-level ParsingError carries pre ++ src and p + |pre|; nested errors are identical), for proceedonerror = false (D19: the constant (0,0) span of time, kernel-checked witness). This is layout invariance for a '
     'blank prefix and the core of C14; layout edits BETWEEN tokens (the general statement), comments in the prefix and proceedonerror = true are decided per input by the relation'])
@@ -112,7 +118,13 @@ reg('C08', 'propchecks.c08', 'proof', T1, [ASCII, DEPTH, CORR])
 
 C15M = 'Bashlex.Props.C15'
 reg('C15', 'propchecks.c15', 'proof', [('Bashlex.Props.C15', C15M), ('Bashlex.Props.enters_visit', C15M), ('Bashlex.Props.reached_noprune', C15M),
-     ('Bashlex.Props.visit_balanced', C15M), ('Bashlex.Props.preorder_mapPos', C15M), ('Bashlex.Props.kinds_covered', C15M)], [CORR])
+     ('Bashlex.Props.visit_balanced', C15M), ('Bashlex.Props.preorder_mapPos', C15M), ('Bashlex.Props.kinds_covered', C15M)] +
+    [('Bashlex.Props.' + t, 'Bashlex.Props.C15Gen') for t in ['visitD_unfold', 'visitT_eq_visit', 'visitT_evs', 'visitT_no_error', 'C15_gen', 'mapT_eq', 'mapT_total', 'posshifter_eq_shift',
+     'mapT_assertShift', 'adjustpositions_gen', 'mapTs_assertShift', 'subclasses_ok', 'endfinder_gen']], [CORR,
+    'Props/C15Gen.lean: the dispatch of nodevisitor.visit (per if/elif arm: kinds, callback attributes, the dochild guard, the traversal steps in order; visitnode first, visitnodeend last, else raises) and the '
+    'visitor subclasses (posshifter, posconverter, the two shifting visitors of subst.py, _endfinder: which methods they override and what they rewrite) are TRANSLATED from ast.py / subst.py / parser.py on every run '
+    '(Gen/Kinds.lean; the generator raises on any statement shape it does not know); visitT_eq_visit: the table-driven visitor over the generated table equals the hand-written model visit on every tree and prune predicate, '
+    'so C15 and its corollaries are theorems about the generated visitor (C15_gen); posshifter_eq_shift, adjustpositions_gen, endfinder_gen tie Node.shift, _adjustpositions and the end finder of parse() to it'])
 
 C06M = 'Bashlex.Props.C06'
 T_C06 = [('Bashlex.C06.' + t, C06M) for t in ['C06_plain', 'C06_total', 'C06_partial', 'C06_partial_sat', 'C06_param', 'C06_param_spec',
